@@ -91,8 +91,6 @@ def oracle(ck, sc, rec, label):
             if any(tuple(sh) != (len(cols[0]), 1) for sh in e['shapes']):
                 ck.fail('equations/shape', 'an argument of the equations is not an (n, 1) column', inp, actual=e['shapes'])
             by_batch.setdefault((e['phase'], e['k']), []).append(w)
-        if lid > 3 or sc['lid'] > 3:
-            continue
         # ---- recorded losses: mean over the batches (+ additional loss) at the evaluation parameters
         for ph in ('train', 'valid'):
             draws = [e[2] for e in ev if e[0] == 'draw' and e[1] == ph]
@@ -108,7 +106,7 @@ def oracle(ck, sc, rec, label):
                 ck.fail(f'loss_is_mean/{ph}', f'{ph}_loss entry is not the mean over the epoch\'s batches of loss_fn + additional_loss', inp,
                         expected=float(mean), actual=series[k - 1])
         # ---- the optimiser step(s)
-        if nbt and not prev['closure'] and steps:
+        if nbt and not prev['closure'] and steps and lid <= 3:
             st = steps[-1]
             draws = [e[2] for e in tr_part if e[0] == 'draw']
             w0 = [Fr(x) for x in st['w_before']]
@@ -200,7 +198,7 @@ def main():
     for label, sc, exact in regression_scenarios():
         camp.add(label, sc, exact)
     r = ck.rng('scenarios')
-    n = 420 if ck.thorough() else 84
+    n = 1260 if ck.thorough() else 84
     for i in range(n):
         if i % 6 == 5:
             sc = T.gen_scenario(r, opt_kinds=('adam', 'lbfgs'), cb_actions=('stop', 'set_loss'), lids=(0, 1, 4, 3), max_epochs=(0, 4),
